@@ -139,6 +139,8 @@ def main():
             if isinstance(e, (SystemExit, KeyboardInterrupt)):
                 fatal = True
         faulthandler.cancel_dump_traceback_later()
+        if res.pop("_restart", False):  # the case left threads or other process state behind: next case gets a fresh worker
+            fatal = True
         res["wall"] = round(time.monotonic() - t0, 4)
         res["cpu"] = round(time.process_time() - c0, 4)
         res["seq"] = seq
